@@ -7,8 +7,10 @@ import Driver.C05
 import Driver.C06
 import Driver.C10
 import Driver.C12
+import Driver.C12Batch
 import Driver.C12Mon
 import Driver.C13
+import Driver.C13Heap
 import Driver.C13Mon
 import Driver.C14
 import Driver.C14Mon
@@ -36,8 +38,10 @@ def suites : List (String × Driver.Suite) :=
   Driver.C06.suites ++
   Driver.C10.suites ++
   Driver.C12.suites ++
+  Driver.C12Batch.suites ++
   Driver.C12Mon.suites ++
   Driver.C13.suites ++
+  Driver.C13Heap.suites ++
   Driver.C13Mon.suites ++
   Driver.C14.suites ++
   Driver.C14Mon.suites ++
